@@ -542,6 +542,53 @@ def _only_reaches(b, bb, a):
     return not any(x in b.exits() for x in b.reach_from(bb, avoid=[a]))
 
 
+def r10(F, R):
+    """A leapfrog step that ended in a divergence counts as acceptance 0 in both statistics."""
+    R.rule("C07-R10", "AcceptanceRateCollector::register_leapfrog: on the edge where the divergence information is present, every RunningMean::add of the "
+                      "acceptance statistics receives the constant 0 (a formula of the energy error would score a NaN or hugely negative error as accepted)")
+    for b in F.trait_method_impls("Collector", "register_leapfrog"):
+        if not path_ends(b.parent.get("self_adt") or "", "AcceptanceRateCollector"):
+            continue
+        site = "%s @%s" % (b.path, b.loc())
+        # the Option<&DivergenceInfo> parameter
+        dpar = [i for i in range(1, b.arg_count + 1) if "DivergenceInfo" in (b.local_ty(i) or "") and "Option" in (b.local_ty(i) or "")]
+        if not dpar:
+            R.missing("C07-R10", "divergence parameter of register_leapfrog")
+            continue
+        some_t = None
+        for bi, blk in enumerate(b.blocks):
+            t = blk["term"]
+            if t["k"] == "switch" and "enum_place" in t and t["enum_place"]["l"] in dpar and not t["enum_place"]["p"]:
+                some_t = next((a["target"] for a in t["arms"] if a.get("name") == "Some"), None)
+                none_t = next((a["target"] for a in t["arms"] if a.get("name") == "None"), None)
+                if some_t is None and none_t is not None:
+                    some_t = t["otherwise"]
+                sw = bi
+        adds = b.calls_to(lambda c: path_ends(c["path"], "RunningMean::add"))
+        key = b.path + ":divergence-scores-zero"
+        if some_t is None:
+            R.bad("C07-R10", key, site, "register_leapfrog does not branch on the presence of the divergence information: diverging steps are scored by the same "
+                  "formula as ordinary ones (NaN energy error -> `NaN.min(0.).exp()` = 1)")
+            continue
+        reach = b.reach_from(some_t, avoid=[sw])
+        on_div = [(bb, t) for bb, t in adds if bb in reach and not all(bb in b.reach_from(x) for x in [none_t] if x is not None and x != some_t)]
+        on_div = [(bb, t) for bb, t in adds if bb in reach and (none_t is None or bb not in b.reach_from(none_t, avoid=[sw]))]
+        lanes = set()
+        bad = []
+        for bb, t in on_div:
+            v = b.value(t["args"][1]) if len(t["args"]) > 1 else ("unknown",)
+            recv = b.value(t["args"][0])
+            lanes |= {n_[2] for n_ in vt_walk(recv) if n_[0] == "field"}
+            if not (v[0] == "const" and v[2] is not None and float(v[2]) == 0.0):
+                bad.append(vt_str(v)[:60])
+        if bad or len(on_div) < 2:
+            R.bad("C07-R10", key, site, "on the divergence edge the acceptance means receive %s (%d adds, lanes %s); expected the constant 0 in both" % (bad or "nothing", len(on_div), sorted(lanes)))
+        else:
+            R.ok("C07-R10", key, site, "divergence -> add(0.) to %s" % sorted(lanes))
+    R.floor("C07-R10", 1)
+
+
+
 def run(F, R, config="all"):
     r1_r2(F, R)
     r3(F, R)
@@ -549,6 +596,11 @@ def run(F, R, config="all"):
     r5_r6(F, R)
     r7(F, R)
     r8(F, R)
+    r10(F, R)
+    # after warmup the step size in use is the averaged one: update_stepsize(.., use_best_guess = true) runs unconditionally (C06-R4 analysis)
+    from . import c06
+    K.borrow_rule(R, lambda sub: c06.r4(F, sub), "C07-R9", "after warmup adapt() calls update_stepsize(.., true) exactly once and unconditionally, so the step size "
+                  "used for sampling is the averaged estimate whatever the jitter setting (decided by the C06-R4 analysis)", only_rules={"C06-R4"})
     for k, v in PARAM_DOMAINS.items():
         R.assume("option %s in %s (documented domain)" % (k[2:], v))
     R.assume("acceptance statistics and target_accept lie in [0, 1]")
